@@ -258,6 +258,12 @@ type faultAction struct {
 	Skip bool   // do not perform the real operation
 }
 
+func (c *recConn) backend() driver.Conn {
+	c.mu.Lock()
+	defer c.mu.Unlock()
+	return c.inner
+}
+
 func (c *recConn) nextFault(op, key string) *faultAction {
 	if c.fault == nil {
 		return nil
@@ -275,7 +281,7 @@ func (c *recConn) Get(key string) ([]byte, error) {
 	if fa := c.nextFault("get", key); fa != nil {
 		data, err = fa.Data, fa.Err
 	} else {
-		data, err = c.inner.Get(key)
+		data, err = c.backend().Get(key)
 	}
 	found := 0
 	if err == nil {
@@ -295,7 +301,7 @@ func (c *recConn) Set(key string, val []byte) error {
 		return fa.Err
 	}
 	c.rec.add(describeSet(key, val))
-	return c.inner.Set(key, val)
+	return c.backend().Set(key, val)
 }
 
 func (c *recConn) Delete(key string) error {
@@ -303,7 +309,7 @@ func (c *recConn) Delete(key string) error {
 		c.rec.add(fmt.Sprintf(" D %s 0", hx(key)))
 		return fa.Err
 	}
-	err := c.inner.Delete(key)
+	err := c.backend().Delete(key)
 	ex := 0
 	if err == nil {
 		ex = 1
